@@ -176,7 +176,9 @@ func init() {
 			one(c13Case{Kind: "success-empty", Assigned: assigned}, false, []byte{}, ok([]byte{}, false))
 			// failures before any body
 			one(c13Case{Kind: "transport-error", Assigned: assigned}, true, nil, func() {
-				serve = func(req *http.Request) rig.Answer { return rig.Answer{Err: errors.New("connection refused (scripted)")} }
+				serve = func(req *http.Request) rig.Answer {
+					return rig.Answer{Err: errors.New("connection refused (scripted)")}
+				}
 			})
 			for _, code := range []int{404, 500, 204} {
 				code := code
